@@ -246,7 +246,16 @@ def to_jsonrpc(sess, m, version):
 
 
 def frames(sess):
-    return [lspclient.frame(to_jsonrpc(sess, m, i + 1)) for i, m in enumerate(sess["msgs"])]
+    """versions are numbered the way clients do it: per document, starting afresh (at 1) with every didOpen and increasing by
+    one per didChange - so a reopened document starts BELOW the last version the server saw before the close"""
+    out, ver = [], {}
+    for m in sess["msgs"]:
+        if m[0] == "open":
+            ver[m[1]] = 1
+        elif m[0] == "change":
+            ver[m[1]] = ver.get(m[1], 0) + 1
+        out.append(lspclient.frame(to_jsonrpc(sess, m, ver.get(m[1], 1) if m[0] in ("open", "change") else 0)))
+    return out
 
 
 TAIL = (lspclient.frame({"jsonrpc": "2.0", "id": SHUTDOWN_ID, "method": "shutdown"})
